@@ -249,6 +249,10 @@ class Disk(object):
         self.files[name] = [arr, length]
 
 
+class Trunc(list):
+    """byte list of a truncate() entry in the flush log: empty, offset = new file length"""
+
+
 class SymFile(object):
     """one open handle (r+b / rb) on a Disk file with a write buffer"""
 
@@ -311,6 +315,16 @@ class SymFile(object):
             t = z3.simplify(self.pos.t)
             self.pos = t.as_long() if z3.is_bv_value(t) else BV64(t)
         return len(bs)
+
+    def truncate(self, size=None):
+        """metadata operation: recorded in the flush log as a Trunc entry (offset = new length, no bytes) so that frame
+        arguments see it; crash images ignore it (a crash can only keep more bytes than the truncation leaves)"""
+        self.flush()
+        n = bv(size) if size is not None else bv(self.pos)
+        arr, length = self.disk.files[self.name]
+        self.disk.files[self.name] = [arr, BV64(z3.simplify(n))]
+        self.disk.log.append((self.name, n, Trunc()))
+        return size
 
     def fileno(self):
         return self
